@@ -458,7 +458,77 @@ func (c *Ctx) dischargeUnreachable(fn *ssa.Function, in ssa.Instruction) (bool, 
 	if b := in.Block(); len(b.Preds) == 1 && c.closedSumNoMatchEdge(b.Preds[0], b) {
 		return true, "reached only when the assertion to every implementer of the closed sum has failed"
 	}
+	// ... or as an if chain comparing one value with every declared constant of its type
+	if c.allConstantsExcluded(fn, in.Block()) {
+		return true, "reached only when the value differs from every declared constant of its type"
+	}
 	return false, ""
+}
+
+// allConstantsExcluded: on every path to b some value of a named (or alias-declared) type has
+// been compared unequal to every constant of that type declared in the type's package.
+func (c *Ctx) allConstantsExcluded(fn *ssa.Function, b *ssa.BasicBlock) bool {
+	pc := core.NewPathConds(fn)
+	dnf := pc.At(b)
+	if len(dnf) == 0 {
+		return false
+	}
+	for _, term := range dnf {
+		excluded := map[string]map[string]bool{}
+		typeOf := map[string]types.Type{}
+		for _, l := range term {
+			bo, ok := l.Cond.(*ssa.BinOp)
+			if !ok || !((bo.Op == token.EQL && !l.Val) || (bo.Op == token.NEQ && l.Val)) {
+				continue
+			}
+			x, k := bo.X, bo.Y
+			if _, isK := x.(*ssa.Const); isK {
+				x, k = k, x
+			}
+			kc, ok := k.(*ssa.Const)
+			if !ok || kc.Value == nil {
+				continue
+			}
+			key := core.Canon(core.Strip(x))
+			if excluded[key] == nil {
+				excluded[key] = map[string]bool{}
+			}
+			excluded[key][kc.Value.ExactString()] = true
+			typeOf[key] = x.Type()
+		}
+		okTerm := false
+		for key, ex := range excluded {
+			t := typeOf[key]
+			var declPkg *types.Package
+			switch tt := t.(type) {
+			case *types.Named:
+				declPkg = tt.Obj().Pkg()
+			case *types.Alias:
+				declPkg = tt.Obj().Pkg()
+			}
+			if declPkg == nil {
+				continue
+			}
+			n, miss := 0, 0
+			for _, name := range declPkg.Scope().Names() {
+				k, ok := declPkg.Scope().Lookup(name).(*types.Const)
+				if !ok || !types.Identical(k.Type(), t) {
+					continue
+				}
+				n++
+				if !ex[k.Val().ExactString()] {
+					miss++
+				}
+			}
+			if n > 0 && miss == 0 {
+				okTerm = true
+			}
+		}
+		if !okTerm {
+			return false
+		}
+	}
+	return true
 }
 
 func (c *Ctx) dischargeUnreachableSyntax(fn *ssa.Function, in ssa.Instruction) (bool, string) {
